@@ -14,6 +14,7 @@ pub mod c28;
 pub mod c29;
 pub mod c30;
 pub mod c32;
+pub mod c33;
 
 pub fn register(v: &mut Vec<CheckDef>) {
     v.push(dsio::def_c01());
@@ -30,5 +31,6 @@ pub fn register(v: &mut Vec<CheckDef>) {
     v.push(c29::def());
     v.push(c30::def());
     v.push(c32::def());
+    v.push(c33::def());
     v.push(c34::def());
 }
